@@ -324,7 +324,12 @@ func c14Exec(in c14In) vh.Out {
 		err = CheckChangeConflictMany(st, names, ignoreID)
 		coqQ = fmt.Sprintf("(QMany %s %s)", c14Ns(q.Snaps), coqIgnore)
 	case "excl":
-		err = checkChangeConflictExclusiveKinds(st, "remodel", ignoreID)
+		if ignoreID == "" {
+			// the exported entry point used by devicestate (Remodel, CreateRecoverySystem, RemoveRecoverySystem)
+			err = CheckChangeConflictRunExclusively(st, "remodel")
+		} else {
+			err = checkChangeConflictExclusiveKinds(st, "remodel", ignoreID)
+		}
 		coqQ = fmt.Sprintf("(QExcl %s)", coqIgnore)
 	case "conflict":
 		name := c14SnapName(q.Snaps[0])
